@@ -206,6 +206,7 @@ def execute(sc):
     seams.seed_global_streams(cfg["seed"])
     restarts = 0
     prev_n = 0
+    hist = None
     try:
         with seams.Seams(clock=seams.FakeClock()):
             try:
@@ -265,6 +266,19 @@ def execute(sc):
                     _viol(V, "readout.aligned", "%s: full read-outs have shapes %r and %r" % (h.kind, S.shape, P.shape))
                     break
                 n = S.shape[0]
+                # "the full chain" is the chain as it was generated: entries read out earlier stay what they were when the
+                # chain is advanced further (an exchange replaces the last entry only)
+                if hist is not None:
+                    S0_, P0_ = hist
+                    keep = S0_.shape[0] - (1 if name == "exchange" else 0)
+                    if n < S0_.shape[0] or not np.array_equal(S[:keep], S0_[:keep]) or not np.array_equal(P[:keep], P0_[:keep]):
+                        rows_ = np.nonzero((S[:keep] != S0_[:keep]).any(axis=1))[0][:3].tolist() if n >= S0_.shape[0] else "fewer rows"
+                        _viol(V, "readout.history", "%s: after %r entries of the chain that had been read out before changed "
+                              "(row(s) %r of %d earlier rows): burn/thin read-outs no longer select entries of the chain as generated"
+                              % (h.kind, op[:-1], rows_, S0_.shape[0]))
+                        break
+                    stats["history_prefix_checked"] += 1
+                hist = (S, P)
                 if n == 0:
                     continue
                 # rows and log-probabilities of the full chain are aligned: each row carries its own value
